@@ -1,9 +1,13 @@
 """C06: SOCKS5 requests are RFC 1928 well-formed (DESIGN.md 5/C06)."""
 import ipaddress
+import re
 import socket
 
 import core
 from coqterm import B, C, L, N, Rec
+
+
+TLS_NAME = re.compile(r'^[a-z0-9]([a-z0-9-]*[a-z0-9])?(\.[a-z0-9]([a-z0-9-]*[a-z0-9])?)*\.?$')
 
 
 def classify(host):
@@ -73,6 +77,11 @@ class P(core.Prop):
         try:
             if route == 'socksep':
                 ep = socks.TorSocksEndpoint(FakeSocksPort(), case['host'], case['port'])
+            elif route == 'socksep-tls':
+                ep = socks.TorSocksEndpoint(FakeSocksPort(), case['host'], case['port'], tls=True)
+            elif route == 'client-tls':
+                ep = eps.TorClientEndpoint(case['host'], case['port'], socks_endpoint=FakeSocksPort(), reactor=object(),
+                                           tls=True)
             elif route == 'client':
                 ep = eps.TorClientEndpoint(case['host'], case['port'], socks_endpoint=FakeSocksPort(), reactor=object())
             elif route == 'guess':
@@ -201,7 +210,19 @@ class P(core.Prop):
                 if kind in ('host', 'v4') and 0 < len(host) <= 255 and all((ch.isascii() and ch.isalnum()) or ch in '-.' for ch in host) \
                         and host.strip('-.') == host and '..' not in host:
                     routes.append('web')
+                if kind == 'host' and TLS_NAME.match(host) and len(host) <= 250 \
+                        and all(len(lab) <= 63 for lab in host.split('.')):
+                    # TLS on top: the name handed to TLS may be normalised, the SOCKS target may not
+                    routes += ['socksep-tls', 'client-tls']
                 c['route'] = rng.choice(routes)
+                if c['route'].endswith('-tls') and not host.endswith('.') and rng.random() < 0.5:
+                    c['host'] = host + '.'
+            if ty == 'CONNECT' and 0 <= port < 65536 and 'route' not in c and rng.random() < 0.12:
+                # a well-formed DNS name, with and without the root dot, through the TLS-wrapping entry points
+                labs = [''.join(rng.choice('abcxyz0123456789') for _ in range(rng.choice([1, 3, 8, 20])))
+                        for _ in range(rng.choice([1, 2, 3]))]
+                c['host'] = '.'.join('x' + l for l in labs) + rng.choice(['', '.'])
+                c['route'] = rng.choice(['socksep-tls', 'client-tls'])
             out.append(c)
         return out
 
